@@ -31,6 +31,7 @@ def generate(rng: random.Random, tier: str):
         cases.append(zoo_kernels.gen_config('wavelet', rng))
     for _ in range(nk):
         cases.append(zoo_kernels.gen_config('pca', rng))
+        cases.append(zoo_kernels.gen_config('einsum_rule', rng))
     return cases
 
 
@@ -90,6 +91,32 @@ def run_pca(cfg) -> Outcome:
     return Outcome(key={k: v for k, v in cfg.items() if k != 'seed'}, viol=viol, branches=['pca'], sample={**cfg, 'captured': captured, 'optimal': best})
 
 
+def run_einsum_rule(cfg) -> Outcome:
+    """EinsumOp with a user rule: forward is the Einstein sum of the rule, adjoint the conjugate-transposed contraction"""
+    import random as _r
+
+    import torch
+
+    op, dom, rng_shape, tol = zoo_kernels.build(cfg)
+    mat, rule = op._verif
+    g = _r.Random(cfg['seed'] + 3)
+    x = torch.tensor([complex(g.randint(-3, 3), g.randint(-3, 3)) for _ in range(max(1, __import__('math').prod(dom)))], dtype=torch.complex128).reshape(dom)
+    trule = rule.replace(' ', '')  # torch.einsum notation (single letters, '...' kept)
+    want = torch.einsum(trule, mat, x)
+    (y,) = op(x)
+    viol = None
+    if y.shape != want.shape or not torch.equal(y, want):
+        viol = {'signature': 'action:einsum:forward', 'what': f'EinsumOp {rule!r}: forward differs from the Einstein sum of the rule (shapes {list(y.shape)} vs {list(want.shape)})'}
+    else:
+        v = torch.tensor([complex(g.randint(-3, 3), g.randint(-3, 3)) for _ in range(max(1, y.numel()))], dtype=torch.complex128).reshape(y.shape)
+        (xa,) = op.adjoint(v)
+        lhs = (v.conj() * y).sum()
+        rhs = (xa.conj() * x).sum() if xa.shape == x.shape else None
+        if rhs is None or lhs != rhs:
+            viol = {'signature': 'action:einsum:adjoint', 'what': f'EinsumOp {rule!r}: <y, A x> != <A^H y, x> (adjoint shape {list(xa.shape)}, domain {list(x.shape)})'}
+    return Outcome(key=('einsum_rule', rule, tuple(dom)), viol=viol, branches=[f'einsum:{rule}'], sample=cfg)
+
+
 def documented_action(cfg, built, F, A):
     """the statement of C09 evaluated directly on the real operator's dense matrices"""
     kind = cfg['kind']
@@ -147,6 +174,8 @@ def run(cfg, drv) -> Outcome:
         return run_wavelet(cfg)
     if cfg['kind'] == 'pca':
         return run_pca(cfg)
+    if cfg['kind'] == 'einsum_rule':
+        return run_einsum_rule(cfg)
     built, F, A, Fm, Am, notes = _ops.matrices(cfg, drv)
     corr = _ops.correspondence(cfg, built, F, A, Fm, Am, notes)
     viol = documented_action(cfg, built, F, A)
